@@ -110,7 +110,7 @@ type c12Round struct {
 
 func c12(ctx *core.Ctx) {
 	quietLogs()
-	ctx.Rule("rounds of W mutator goroutines (each owns one WebService key /k<i>: Add/Remove of a fresh WebService, and one route key /d<i>/r/{id:regex}: Route/RemoveRoute on its own dynamic-routes service (empty whenever the route is withdrawn), each generation with another regular expression; an OPTIONS filter is installed and readers also send OPTIONS; Remove is now and then repeated; handlers return a unique generation) and R reader goroutines probing dynamic and stable URLs; both routers x {ServeHTTP, Dispatch}; yields injected through If-conditions (inside the read-locked selection) and a container filter. Monitors: Go race detector; client-boundary history {op, key, gen, call, return} checked by porcupine per key against a register over {absent, gen}; stable URLs must always get their fixed answer; panics; blocked-goroutine state detector. Non-trivial = a read that overlapped a write of its own key; distinct by (round configuration, key, observed value class).")
+	ctx.Rule("rounds of W mutator goroutines (each owns one WebService key /k<i>: Add/Remove of a fresh WebService, and one route key /d<i>/r/{id:regex}: Route/RemoveRoute on its own dynamic-routes service (empty whenever the route is withdrawn) and a third key /dyn/s<i>/{id:regex} on the dynamic-routes service all mutators share, each generation with another regular expression; an OPTIONS filter is installed and readers also send OPTIONS; Remove is now and then repeated; handlers return a unique generation) and R reader goroutines probing dynamic and stable URLs; both routers x {ServeHTTP, Dispatch}; yields injected through If-conditions (inside the read-locked selection) and a container filter. Monitors: Go race detector; client-boundary history {op, key, gen, call, return} checked by porcupine per key against a register over {absent, gen}; stable URLs must always get their fixed answer; panics; blocked-goroutine state detector. Non-trivial = a read that overlapped a write of its own key; distinct by (round configuration, key, observed value class).")
 	ctx.Assume("schedules are not reproducible: evidence reports the overlap actually observed", "a porcupine timeout is inconclusive, never a violation")
 	rounds := ctx.N(64, 6000)
 	var totalOps, totalOverlap, partitions int
@@ -197,6 +197,10 @@ func c12(ctx *core.Ctx) {
 				skey := fmt.Sprintf("/k%d", m)
 				rkey := fmt.Sprintf("/d%d/r", m)
 				rpath := ""
+				// a second route key on the SHARED dynamic service: several goroutines change the routes of one WebService
+				skey2 := fmt.Sprintf("/dyn/s%d", m)
+				spath := ""
+				sharedOn := false
 				var ws *restful.WebService
 				routeOn := false
 				for i := 0; i < rd.OpsPer; i++ {
@@ -237,6 +241,21 @@ func c12(ctx *core.Ctx) {
 						routeOn = false
 					}
 					runtime.Gosched()
+					// shared-service route key
+					if !sharedOn {
+						g := int(atomic.AddInt64(&gen, 1))
+						spath = fmt.Sprintf("/dyn/s%d/{id:[0-9]{1,%d}}", m, 1+g%9)
+						call := now()
+						dyn.Route(dyn.GET(fmt.Sprintf("/s%d/{id:[0-9]{1,%d}}", m, 1+g%9)).If(yieldCond).To(genHandler(g)))
+						hist.add(porcupine.Operation{ClientId: m, Input: regIn{skey2, opAdd, g}, Call: call, Output: 0, Return: now()})
+						sharedOn = true
+					} else {
+						call := now()
+						dyn.RemoveRoute(spath, "GET")
+						hist.add(porcupine.Operation{ClientId: m, Input: regIn{skey2, opRemove, 0}, Call: call, Output: 0, Return: now()})
+						sharedOn = false
+					}
+					runtime.Gosched()
 				}
 			}(m)
 		}
@@ -248,12 +267,15 @@ func c12(ctx *core.Ctx) {
 				n := 0
 				for atomic.LoadInt32(&stop) == 0 && n < 900 {
 					n++
-					k := (n + rdr) % (2*rd.Mutators + 2)
+					k := (n + rdr) % (3*rd.Mutators + 2)
 					switch {
-					case k < rd.Mutators, k < 2*rd.Mutators:
+					case k < 3*rd.Mutators:
 						key := fmt.Sprintf("/k%d", k)
 						path := key + "/v"
-						if k >= rd.Mutators {
+						if k >= 2*rd.Mutators {
+							key = fmt.Sprintf("/dyn/s%d", k-2*rd.Mutators)
+							path = key + "/7"
+						} else if k >= rd.Mutators {
 							key = fmt.Sprintf("/d%d/r", k-rd.Mutators)
 							path = key + "/7"
 						}
@@ -287,7 +309,7 @@ func c12(ctx *core.Ctx) {
 					default:
 						i := n % 3
 						path, want := fmt.Sprintf("/stable/s%d", i), fmt.Sprintf("stable-%d", i)
-						if k == 2*rd.Mutators+1 {
+						if k == 3*rd.Mutators+1 {
 							path, want = "/dyn/keep", "keep"
 						}
 						status, body, ok := get(path)
